@@ -7,6 +7,7 @@ mod c16;
 mod rx;
 mod c09;
 mod rt;
+mod c15;
 
 fn main() {
     let args: Vec<String> = std::env::args().collect();
@@ -19,6 +20,7 @@ fn main() {
         "rx" => rx::main(&args[2..]),
         "c09" => c09::main(&args[2..]),
         "rt" => rt::main(&args[2..]),
+        "c15" => c15::main(&args[2..]),
         other => {
             eprintln!("unknown property {other}");
             2
